@@ -19,14 +19,14 @@ def generate(rng, tier, shard, nshards):
             feat = aops.afeat(A)
             base = {"sr": srn, "A": A, "sigma": sig, "L": max(L, A["n"]), "style": style}
             for fn in ("determinize", "min_det", "push", "trim", "trim_vals"):
-                yield aops.event("wop", dict(base, fn=fn), site=f"WFSA.{fn}", feat=feat)
+                yield aops.event("wop", dict(base, fn=fn), site=f"WFSA.{fn}", feat=feat, timeout=10)
             if i % 3 == 0:
                 # cyclic but already deterministic: the subset construction terminates
                 D = {"n": 2, "I": [[0, A["I"][0][1]]], "F": [[1, A["I"][0][1]]],
                      "arcs": [[0, "a", 1, A["I"][0][1]], [1, "b", 1, [1, 4]], [1, "a", 0, [1, 4]]]}   # cycle mass < 1
                 for fn in ("determinize", "push", "min_det"):
                     yield aops.event("wop", {"sr": srn, "A": D, "sigma": sig, "L": L, "fn": fn, "style": style},
-                                     site=f"WFSA.{fn}", feat="cycle")
+                                     site=f"WFSA.{fn}", feat="cycle", timeout=5)
         else:
             A = aops.rand_wfsa(rng, srn, nS=rng.choice([3, 4]), narcs=rng.choice([4, 6, 8]))
             feat = aops.afeat(A)
